@@ -531,7 +531,15 @@ func (c *client) receive(r io.Reader) (err error) {
 
 	select {
 	case <-rpc.Context().Done():
-		// context has expired, don't bother deserializing
+		// context has expired, don't bother deserializing: nobody waits for
+		// this response. An exception that means the regionserver is going
+		// away concerns every other request on this connection though.
+		if header.Exception != nil {
+			if serr, ok := exceptionToError(header.Exception.GetExceptionClassName(),
+				header.Exception.GetStackTrace()).(ServerError); ok {
+				return serr
+			}
+		}
 		return
 	default:
 	}
